@@ -209,11 +209,12 @@ def run_hist(case):
             fails.append("at quiescence array %s has writeable=%s, originally %s" % (n, a.flags.writeable, orig[n]))
         if not orig[n] and a.flags.writeable and a.base is None:
             fails.append("array %s was read-only beforehand and is now writeable" % n)
-    nz = sum(1 for v in _mem._array_counter.values() if v > 0)
-    live_tr = sum(1 for r in _mem._array_tracker.values() if r() is not None)
-    if nz or live_tr:
-        # (stale entries of _views_waiting_for_unlock can survive quiescence -- proved possible on the model, harmless for the flags)
-        fails.append("lock tables not empty at quiescence: counters=%d tracked(live)=%d" % (nz, live_tr))
+    # a LIVE array that still has a positive lock count at quiescence is stuck read-only.  (Entries of arrays that have died -- a counter
+    # whose tracker weak reference is dead, stale members of _views_waiting_for_unlock -- can survive quiescence; array_is_tracked()
+    # treats them as absent, so they are harmless for the flags the property is about and are not demanded to be gone.)
+    live_locked = sum(1 for k, r in _mem._array_tracker.items() if r() is not None and _mem._array_counter.get(k, 0) > 0)
+    if live_locked:
+        fails.append("at quiescence %d live array(s) still have a positive lock count" % live_locked)
     return {"oracle": fails, "exceptions": log}
 
 
